@@ -417,17 +417,30 @@ def make_rpc_class(env, cfg):
         def on_disconnect_due_to_excessive_session_cost(self):
             self.log.append(('hook', self.loop.time()))
 
+        gates = None
+
         async def handle_request(self, request):
-            self.log.append(('start', request.args[0], self.loop.time()))
+            self.log.append(('start', request.args[0], self.loop.time(),
+                             self._incoming_concurrency.max_concurrent))
+            if request.method == 'hold':
+                # scripted holder: waits for its gate, then fails with the given cost (or succeeds)
+                cost = await self.gates[request.args[0]]
+                self.log.append(('finish', request.args[0], self.loop.time()))
+                if cost is not None:
+                    raise self.rpc_error(7, 'no', cost=cost)
+                return request.args[0]
             if request.method == 'fail':
                 raise self.rpc_error(7, 'no', cost=request.args[1])
+            if request.method == 'crash':
+                raise ValueError('handler crashed')
             return request.args[0]
     return Srv
 
 
 def run_session_case(env, cfg, client, script):
     """script: list of ('bump', d) / ('extra', e) / ('advance', dt) / ('eval',) / ('req', id) /
-    ('fail', id, extra_cost).  Returns the oracle verdict (key, why) and statistics."""
+    ('fail', id, extra_cost) / ('crash', id) and the same three as *notifications* ('nreq', 'nfail',
+    'ncrash': no id, so no reply).  Returns the oracle verdict (key, why) and statistics."""
     env.new_loop()
     cls = make_rpc_class(env, cfg)
     RPCError = env.jsonrpc.RPCError
@@ -474,13 +487,18 @@ def run_session_case(env, cfg, client, script):
                 fail('c14:accounting-raised', f'recalc_concurrency() raised {type(e).__name__}: {e}')
                 break
             ev_last = s.cost + s._extra
-        elif st[0] in ('req', 'fail'):
+        elif st[0] in ('req', 'fail', 'crash', 'nreq', 'nfail', 'ncrash'):
             rid = st[1]
-            d = {'jsonrpc': '2.0', 'method': st[0], 'params': [rid] + list(st[2:]), 'id': rid}
+            is_notification = st[0][0] == 'n'
+            method = st[0][1:] if is_notification else st[0]
+            d = {'jsonrpc': '2.0', 'method': method, 'params': [rid] + list(st[2:])}
+            if not is_notification:
+                d['id'] = rid
             data = json.dumps(d).encode() + b'\n'
             t0 = env.loop.time()
             nout = len(tr.out)
             cost_before = s.cost
+            errors_before = s.errors
             proto.data_received(data)
             env.advance(cfg['sleep'] * 4 + 1)
             started = [e for e in s.log if e[0] == 'start' and e[1] == rid]
@@ -511,8 +529,10 @@ def run_session_case(env, cfg, client, script):
                 if started:
                     fail('c14:executed-past-hard', f'request {rid} was executed although evaluated cost '
                                                    f'{ev_last} >= hard {hard}')
-                if code != -101:
+                if code != -101 and not is_notification:
                     fail('c14:no-101-past-hard', f'request {rid}: reply code {code}, expected -101')
+                if is_notification and replies:
+                    fail('c14:reply-to-notification', f'notification {rid} was answered: {replies[:1]}')
                 if not hooks:
                     fail('c14:hook-not-called', f'request {rid}: disconnect hook not called')
                 if not s.is_closing():
@@ -534,19 +554,140 @@ def run_session_case(env, cfg, client, script):
                     if got > cfg['sleep'] + 1e-9:
                         fail('c14:delay-above-max', f'delay {got} > cost_sleep {cfg["sleep"]}')
                     stats['delayed'] += 1
-            if st[0] == 'fail' and started and not closed:
-                # a failed request costs base + its own cost, on top of the bytes of request and
-                # reply; if that re-evaluates, the decay covers the time since the evaluation
+            if started and not closed:
+                # bytes of the message and of its reply are charged at the per-byte rate; a failed
+                # request OR notification costs base + its own cost on top and counts as an error;
+                # if that re-evaluates, the decay covers the time since the evaluation.
                 # _send_message charges the unframed message: without the framer's newline
+                failing = method in ('fail', 'crash')
+                own = st[2] if method == 'fail' else 0.0
                 sent = sum(len(c) - c.count(b'\n') for c in tr.out[nout:])
-                want = cost_before + (len(data) + sent) * cfg['bw'] + cfg['base'] + st[2]
+                if is_notification and sent:
+                    fail('c14:reply-to-notification', f'notification {rid} was answered')
+                want = cost_before + (len(data) + sent) * cfg['bw'] + ((cfg['base'] + own) if failing else 0.0)
                 alt = max(0.0, want - (started[0][2] - t0) * cfg['decay'])
+                what = ('failed ' if failing else '') + ('notification' if is_notification else 'request')
                 if not any(abs(s.cost - w) <= 1e-6 * max(1.0, w) for w in (want, alt)):
-                    fail('c14:error-charge', f'failed request {rid}: cost {cost_before} -> {s.cost}, '
-                                             f'expected {want} (or {alt} if re-evaluated)')
+                    fail('c14:error-charge' if failing else 'c14:traffic-charge',
+                         f'{what} {rid}: cost {cost_before} -> {s.cost}, expected {want} '
+                         f'(or {alt} if re-evaluated): {len(data)} bytes in, {sent} out'
+                         + (f', error base {cfg["base"]} + own cost {own}' if failing else ''))
+                if s.errors - errors_before != (1 if failing else 0):
+                    fail('c14:error-count', f'{what} {rid}: session.errors went {errors_before} -> {s.errors}')
+                stats['failing_notifications'] = stats.get('failing_notifications', 0) + (failing and is_notification)
             ev_last = None
     env.close_loop()
     return key, why, stats
+
+
+def run_queue_case(env, case):
+    """Requests already queued for a concurrency slot when the cost crosses the hard limit: the
+    limiter is saturated by gate-controlled handlers, more requests wait, then one holder ends with
+    an expensive error (so the session re-evaluates its cost past the hard limit at that moment).
+    Property: once the evaluated cost has reached the hard limit no further request is executed; a
+    request admitted from then on is refused with -101, the hook runs, the session closes."""
+    cfg = case['cfg']
+    env.new_loop()
+    cls = make_rpc_class(env, cfg)
+    RPCError = env.jsonrpc.RPCError
+
+    def rpc_error(self, code, msg, cost):
+        e = RPCError(code, msg)
+        e.cost = cost
+        return e
+    cls.rpc_error = rpc_error
+    proto, tr, s = env.make_session(cls, 'server')
+    s.log = []
+    s.gates = {}
+    key = why = None
+
+    def fail(k, w):
+        nonlocal key, why
+        if why is None:
+            key, why = k, w
+
+    def feed(rid, method):
+        d = {'jsonrpc': '2.0', 'method': method, 'params': [rid], 'id': rid}
+        proto.data_received(json.dumps(d).encode() + b'\n')
+
+    n, w = cfg['init'], case['waiters']
+    for i in range(n):
+        s.gates[i] = env.loop.create_future()
+        feed(i, 'hold')
+    env.idle()
+    for j in range(n, n + w):
+        feed(j, 'req')
+    env.idle()
+    started = {e[1] for e in s.log if e[0] == 'start'}
+    if started != set(range(n)):
+        fail('c14:queue-setup', f'expected exactly the {n} holders to run, got {sorted(started)}')
+    nout = len(tr.out)
+    s.gates[case['which']].set_result(case['cost'])
+    env.advance(cfg['sleep'] * 4 + 1)
+    limit = s._incoming_concurrency.max_concurrent
+    ev = s.cost + s._extra
+    stats = dict(refused=0)
+    if limit == 0 and ev >= cfg['hard'] - 1e-6:
+        # the evaluated cost reached the hard limit when the holder failed
+        late = [e for e in s.log if e[0] == 'start' and e[1] >= n]
+        for e in late:
+            if e[3] <= 0:
+                fail('c14:executed-past-hard',
+                     f'request {e[1]} was queued for a slot; it was executed at t={e[2]} although the '
+                     f'evaluated cost ({ev}) had reached the hard limit {cfg["hard"]} (limit 0)')
+        replies = {}
+        for chunk in tr.out[nout:]:
+            for line in chunk.split(b'\n'):
+                if line:
+                    v = json.loads(line)
+                    replies[v.get('id')] = v
+        first = n
+        code = replies.get(first, {}).get('error', {}).get('code')
+        if not late:
+            if code != -101:
+                fail('c14:no-101-past-hard', f'queued request {first} got its slot after the hard limit '
+                                             f'was reached: reply {replies.get(first)}, expected -101')
+            if not any(e[0] == 'hook' for e in s.log):
+                fail('c14:hook-not-called', f'queued request {first}: disconnect hook not called')
+            if not s.is_closing():
+                fail('c14:not-closed-past-hard', f'queued request {first}: session not closing after refusal')
+            stats['refused'] = 1
+    else:
+        fail('c14:queue-setup', f'the expensive failure did not bring the limit to 0 (limit {limit}, evaluated {ev})')
+    for g in s.gates.values():
+        if not g.done():
+            g.cancel()
+    env.close_loop()
+    return key, why, stats
+
+
+def queue_cases(rng, count):
+    out = []
+    for k in range(count):
+        soft = dy(rng, 0, 500)
+        hard = soft + dy(rng, 50, 2000)
+        cfg = dict(bw=1 / 65536, soft=soft, hard=hard, decay=rng.choice([0.0, 0.25]), sleep=rng.choice([2.0, 0.5]),
+                   base=dy(rng, 0, 200), init=1 + k % 3)
+        out.append(dict(cfg=cfg, waiters=1 + (k // 3) % 2, which=rng.randrange(cfg['init']),
+                        cost=hard + 101 + dy(rng, 0, 500)))
+    return out
+
+
+def _queue_batch(cases):
+    return [run_queue_case(_env, c) for c in cases]
+
+
+def evaluate_queue(ctx, res, cases):
+    results = _pmap(ctx, _queue_batch, cases, chunk=50)
+    for case, (key, why, stats) in zip(cases, results):
+        c = dict(case, level='queue')
+        if why:
+            res.violation(key, c, why)
+        res['evaluations'] += 1
+        res.count('queue_cases')
+        res.count('queued_requests_refused_101', stats['refused'])
+        if stats['refused']:
+            res.nontrivial(json.dumps(c, sort_keys=True))
 
 
 def random_session_script(rng):
@@ -573,13 +714,27 @@ def random_session_script(rng):
             script.append(('bump', dy(rng, 0, max(hard, soft) + 200)))
         else:
             script.append(('bump', dy(rng, -500, 2000)))
+        if rng.random() < 0.3 and script[-1][1] > 0:
+            # drive the cost up with an expensive failing notification instead of bump_cost
+            d = script.pop()[1]
+            script += [('eval',), ('nfail', rid, d)]
+            rid += 1
         if rng.random() < 0.3:
             script.append(('extra', dy(rng, -200, 600)))
         if rng.random() < 0.3:
             script.append(('advance', dy(rng, 0, 50)))
         script.append(('eval',))
-        if rng.random() < 0.25:
+        k = rng.random()
+        if k < 0.15:
             script.append(('fail', rid, dy(rng, 0, 300)))
+        elif k < 0.35:
+            script.append(('nfail', rid, dy(rng, 0, 300)))
+        elif k < 0.4:
+            script.append(('crash', rid))
+        elif k < 0.45:
+            script.append(('ncrash', rid))
+        elif k < 0.55:
+            script.append(('nreq', rid))
         else:
             script.append(('req', rid))
         rid += 1
@@ -601,6 +756,7 @@ def evaluate_session(ctx, res, cases):
         res.count('session_requests_refused_101', stats['refused'])
         res.count('session_requests_delayed', stats['delayed'])
         res.count('session_requests_prompt', stats['prompt'])
+        res.count('session_failing_notifications', stats.get('failing_notifications', 0))
         if stats['refused'] or stats['delayed']:
             res.nontrivial(json.dumps(case, sort_keys=True))
 
@@ -634,28 +790,37 @@ def run(ctx):
     if cc:
         evaluate_acct(ctx, res, cc, 'corpus', thr)
     res['scopes']['corpus'] = len(cc)
-    # quick-size scopes first; the thorough volume is only added while nothing has failed
+    # cheap targeted scenarios and quick-size scopes first; the larger volumes are only added
+    # while nothing has failed (so a failing tree is reported fast)
+    full = ctx.tier == 'thorough'
+    nq = 24
+    evaluate_queue(ctx, res, queue_cases(rng, nq))
+    nsess = 400
+    evaluate_session(ctx, res, [random_session_script(rng) for _ in range(nsess)])
     depth = 4
     ex = list(exhaustive_grid(depth))
     evaluate_acct(ctx, res, ex, 'exhaustive', thr)
-    full = ctx.tier == 'thorough'
-    if full and not res.failed:
-        depth = 5
-        ex5 = [c for c in exhaustive_grid(5) if len(c[2]) == 5]
-        evaluate_acct(ctx, res, ex5, 'exhaustive', thr)
-        ex += ex5
-    res['scopes']['exhaustive'] = {'alphabet': 11, 'max_len': depth, 'histories': len(ex)}
-    nrand = (120000 if full else 20000) if ctx.deep and not res.failed else 6000
+    nrand = (120000 if full else 12000) if ctx.deep and not res.failed else 6000
     cases = []
     for _ in range(nrand):
         cfg = random_cfg(rng)
         cases.append((cfg, rng.random() < 0.15, random_history(rng, cfg)))
     evaluate_acct(ctx, res, cases, 'random', thr)
     res['scopes']['random_histories'] = nrand
-    nsess = (6000 if full else 1200) if ctx.deep and not res.failed else 400
-    scases = [random_session_script(rng) for _ in range(nsess)]
-    evaluate_session(ctx, res, scases)
+    if ctx.deep and not res.failed:
+        more = 5600 if full else 800
+        evaluate_session(ctx, res, [random_session_script(rng) for _ in range(more)])
+        nsess += more
+        evaluate_queue(ctx, res, queue_cases(rng, 36))
+        nq += 36
+    if full and not res.failed:
+        depth = 5
+        ex5 = [c for c in exhaustive_grid(5) if len(c[2]) == 5]
+        evaluate_acct(ctx, res, ex5, 'exhaustive', thr)
+        ex += ex5
+    res['scopes']['exhaustive'] = {'alphabet': 11, 'max_len': depth, 'histories': len(ex)}
     res['scopes']['session'] = nsess
+    res['scopes']['queued_when_hard_limit_reached'] = nq
     for cfg, client, ops in cases[:2]:
         res.sample({'cfg': cfg, 'client': client, 'ops': ' '.join(op_text(o) for o in ops)[:300]})
     return res.finish(RULE, exhaustive=not res.failed)
@@ -667,7 +832,9 @@ def replay(ctx, case):
     res = Results()
     _init(ctx.repo)
     thr = ctx.facts.get('drift_threshold', 100)
-    if case.get('level') == 'session':
+    if case.get('level') == 'queue':
+        evaluate_queue(ctx, res, [{k: v for k, v in case.items() if k != 'level'}])
+    elif case.get('level') == 'session':
         evaluate_session(ctx, res, [(case['cfg'], case['client'], [tuple(s) for s in case['script']])])
     else:
         evaluate_acct(ctx, res, [(case['cfg'], case.get('client', False),
